@@ -115,14 +115,38 @@ def near_miss(o):
             break
         xs = M.strip(x)
         best = None
+
+        def atom_plus(y):
+            """y = atom + kf through widenings and +/- constants (the guard may be written on `idx + 1`)"""
+            kf = 0
+            for _ in range(8):
+                d_ = fn.defn(y)
+                if d_ is None or d_.is_param:
+                    break
+                if d_.op in ("zext", "sext"):
+                    y = d_.ops[0]; continue
+                if d_.op in ("add", "sub") and is_const(d_.ops[1]) and const_val(d_.ops[1]) is not None:
+                    c_ = const_val(d_.ops[1])
+                    if c_ >= (1 << 31):
+                        c_ -= (1 << 32) if c_ < (1 << 32) else (1 << 64)
+                    kf += c_ if d_.op == "add" else -c_
+                    y = d_.ops[0]; continue
+                break
+            return M.strip(y), kf
         for f in F.at_inst(inst):
-            if f[0] == "in" or M.strip(f[1]) != xs or not is_const(f[2]) or const_val(f[2]) is None:
+            if f[0] == "in" or len(f) < 3 or not is_const(f[2]) or const_val(f[2]) is None:
                 continue
+            kf = 0
+            if M.strip(f[1]) != xs:
+                at_, kf = atom_plus(f[1])
+                if at_ != xs or kf < 0 or kf > 64:
+                    continue
             c = const_val(f[2])
             if c >= (1 << 31):
                 continue
             ub = c - 1 if f[0] in ("ult", "slt") else (c if f[0] in ("ule", "sle") else None)
             if ub is not None:
+                ub -= kf
                 best = ub if best is None else min(best, ub)
         if best is not None and best + k >= n_el:
             return best + k
